@@ -32,6 +32,10 @@ pub fn families(property: &str, tier: &str) -> Vec<Family> {
             Family { name: "tamper-enum", weight: if thorough { 6 } else { 1 }, gen: crate::tamper::generate_enum },
             Family { name: "hist", weight: 10, gen: crate::hist::generate },
         ],
+        "C09" => vec![Family { name: "sign", weight: 1, gen: crate::parties::generate_sign }],
+        "C10" => vec![Family { name: "recip", weight: 1, gen: crate::parties::generate_recip }],
+        "C11" => vec![Family { name: "sskr", weight: 1, gen: crate::parties::generate_sskr }],
+        "C12" => vec![Family { name: "proof", weight: 1, gen: crate::parties::generate_proof }],
         "C16" => vec![Family { name: "panics", weight: 1, gen: crate::panics::generate }],
         _ => vec![],
     }
@@ -43,6 +47,10 @@ pub fn dispatch(scn: &Scenario, ctx: &mut Ctx) -> Result<(), String> {
         "wire" => crate::wire::run(scn, ctx),
         "tamper" => crate::tamper::run(scn, ctx),
         "panics" => crate::panics::run(scn, ctx),
+        "sign" => crate::parties::run_sign(scn, ctx),
+        "recip" => crate::parties::run_recip(scn, ctx),
+        "sskr" => crate::parties::run_sskr(scn, ctx),
+        "proof" => crate::parties::run_proof(scn, ctx),
         f => return Err(format!("unknown scenario family {}", f)),
     }
     Ok(())
@@ -56,11 +64,20 @@ fn level_of(property: &str) -> &'static str {
 }
 
 fn default_runs(property: &str, tier: &str) -> u64 {
+    // sized so that a quick check simulates for roughly 5-15 s on 16 cores
     let quick = match property {
+        "C01" | "C02" | "C03" | "C04" | "C05" | "C07" | "C12" => 200_000,
+        "C06" => 60_000,
+        "C08" => 30_000,
+        "C13" => 50_000,
+        "C16" => 100_000,
+        "C09" => 15_000,
+        "C10" => 20_000,
+        "C11" => 15_000,
         _ => 40_000,
     };
     if tier == "thorough" {
-        quick * 40
+        quick * 30
     } else {
         quick
     }
